@@ -863,6 +863,37 @@ class Desugar(ast.NodeTransformer):
                                 out.append(nb)
                         i += 1
                         continue
+            # D3c: L = [E for a, b in TABLE if C]   ->   L = [] ; per row: if C: L.append(E)      (TABLE a literal table, also a local one)
+            if isinstance(st, ast.Assign) and len(st.targets) == 1 and isinstance(st.targets[0], ast.Name) and isinstance(st.value, ast.ListComp) \
+                    and len(st.value.generators) == 1 and not st.value.generators[0].is_async:
+                lc = st.value
+                g = lc.generators[0]
+                rows = self._rows(g.iter, local_tables)
+                names = [t.id for t in g.target.elts] if isinstance(g.target, ast.Tuple) and all(isinstance(t, ast.Name) for t in g.target.elts) else None
+                if rows is not None and names and len(names) == len(rows[0]) and len(rows) <= 8:
+                    v = st.targets[0].id
+                    init = ast.Assign(targets=[ast.Name(id=v, ctx=ast.Store())], value=ast.List(elts=[], ctx=ast.Load()))
+                    new_nodes: List[ast.stmt] = [init]
+                    for row in rows:
+                        m = dict(zip(names, row))
+                        app = ast.Expr(value=ast.Call(func=ast.Attribute(value=ast.Name(id=v, ctx=ast.Load()), attr='append', ctx=ast.Load()),
+                                                      args=[_Subst(m).visit(copy.deepcopy(lc.elt))], keywords=[]))
+                        node_: ast.stmt = app
+                        if g.ifs:
+                            test = None
+                            for c in g.ifs:
+                                cc = _Subst(m).visit(copy.deepcopy(c))
+                                test = cc if test is None else ast.BoolOp(op=ast.And(), values=[test, cc])
+                            node_ = ast.If(test=test, body=[app], orelse=[])
+                        new_nodes.append(node_)
+                    for nd in new_nodes:
+                        for x in ast.walk(nd):
+                            if not hasattr(x, 'lineno'):
+                                ast.copy_location(x, st)
+                        ast.copy_location(nd, st)
+                    out.extend(new_nodes)
+                    i += 1
+                    continue
             # D3b: X.extend(E for a, b in TABLE if C)  ->  per row: if C: X.append(E)
             if isinstance(st, ast.Expr) and isinstance(st.value, ast.Call) and isinstance(st.value.func, ast.Attribute) and st.value.func.attr == 'extend' \
                     and len(st.value.args) == 1 and isinstance(st.value.args[0], (ast.GeneratorExp, ast.ListComp)) and len(st.value.args[0].generators) == 1:
